@@ -236,15 +236,14 @@ let enum_of x = match tagged "en" x with
 let sx_enum e = L [A "en"; sx_ent e.se_ent; sz e.se_minsize;
                    L (A "vals" :: List.map (fun (ve, i) -> L [A "v"; sx_ent ve; sz i]) e.se_values)]
 
+let attrbody_of body = match body with
+  | L [A "str"; d] -> ABString (str d)
+  | L [A "int"; d; mn; mx; hx] -> ABInt (num d, num mn, num mx, boolean hx)
+  | L [A "flt"; d; mn; mx] -> ABFloat (num d, num mn, num mx)
+  | L (A "enm" :: d :: vals) -> ABEnum (str d, List.map str vals)
+  | _ -> failwith "attr body"
 let attr_of x = match tagged "at" x with
-  | [e; body] ->
-    { at_ent = ent_of e;
-      at_body = (match body with
-          | L [A "str"; d] -> ABString (str d)
-          | L [A "int"; d; mn; mx; hx] -> ABInt (num d, num mn, num mx, boolean hx)
-          | L [A "flt"; d; mn; mx] -> ABFloat (num d, num mn, num mx)
-          | L (A "enm" :: d :: vals) -> ABEnum (str d, List.map str vals)
-          | _ -> failwith "attr body") }
+  | [e; body] -> { at_ent = ent_of e; at_body = attrbody_of body }
   | _ -> failwith "attr"
 let sx_attr a = L [A "at"; sx_ent a.at_ent;
                    (match a.at_body with
@@ -266,6 +265,25 @@ let sx_net n =
      L (A "builders" :: List.map sx_builder n.n_builders); L (A "nodes" :: List.map sx_node n.n_nodes);
      L (A "types" :: List.map sx_type n.n_types); L (A "units" :: List.map sx_unit n.n_units);
      L (A "enums" :: List.map sx_enum n.n_enums); L (A "attrs" :: List.map sx_attr n.n_attrs)]
+
+(* ---------------------------------------------------------------- op log of the flat generator -> builder ops *)
+let op_of x = match x with
+  | L [A "defattr"; e; body] -> ODefAttr (ent_of e, attrbody_of body)
+  | L [A "deftype"; t] -> ODefType (type_of t)
+  | L [A "defunit"; u] -> ODefUnit (unit_of u)
+  | L [A "defenum"; e; ms; vals] ->
+    ODefEnum (ent_of e, List.map (fun v -> match tagged "v" v with [ve; i] -> (ent_of ve, num i) | _ -> failwith "val") (tagged "vals" vals), num ms)
+  | L [A "defnode"; e; id; cnt; asg] -> ODefNode (ent_of e, num id, num cnt, assigns_of asg)
+  | L [A "defbuilder"; b] -> ODefBuilder (builder_of b)
+  | L [A "newmsg"; m; asg] -> ONewMessage (msg_of m, assigns_of asg)
+  | L [A "insert"; s; asg; pos] -> OInsertSignal (sig_of s, assigns_of asg, num pos)
+  | L [A "newiface"; n; k] -> ONewIface (str n, num k)
+  | L [A "addsent"; recs] ->
+    OAddSentMessage (List.map (fun r -> match tagged "r" r with [n; k] -> (str n, num k) | _ -> failwith "rec") (tagged "recs" recs))
+  | L [A "newbus"; e; baud; bld; asg] -> ONewBus (ent_of e, num baud, str bld, assigns_of asg)
+  | L [A "addiface"] -> OAddNodeInterface
+  | L [A "addbus"] -> OAddBus
+  | _ -> failwith "op"
 
 (* ---------------------------------------------------------------- pnet <-> sexp *)
 let pent_of = function
@@ -446,7 +464,7 @@ let () =
   let verbose = Array.length Sys.argv > 2 && Sys.argv.(2) = "-v" in
   let nets : (string, net * sx) Hashtbl.t = Hashtbl.create 64 in
   let pnets : (string, pNet) Hashtbl.t = Hashtbl.create 64 in
-  let checks = ref 0 and bad = ref 0 and wffail = ref 0 and wfskip = ref 0 and modelskip = ref 0 and indom = ref 0 and outdom = ref 0 and loads_ok = ref 0 and loads_err = ref 0 in
+  let checks = ref 0 and bad = ref 0 and wffail = ref 0 and wfskip = ref 0 and modelskip = ref 0 and indom = ref 0 and outdom = ref 0 and loads_ok = ref 0 and loads_err = ref 0 and builds = ref 0 in
   let causes : (string, int) Hashtbl.t = Hashtbl.create 16 in
   let report kind id detail =
     incr bad;
@@ -482,6 +500,19 @@ let () =
             if not (wfb n) then begin incr wffail; Printf.printf "WFFAIL orig %s the projected original network is not well-formed in the model\n" id end;
             (* the hypotheses of load_save, evaluated on the network built through the API *)
             if in_domain n then incr indom else incr outdom
+          | "B" ->
+            (* the calls the flat generator made: the builder model must reach the observed network *)
+            let sx = parse_sx line off in
+            (match tagged "ops" sx, Hashtbl.find_opt nets id with
+             | e :: ops, Some (n, _) ->
+               incr checks; incr builds;
+               (match build (ent_of e) (List.map op_of ops) with
+                | Some n' ->
+                  let a = canon (sx_net (prune n)) and b = canon (sx_net (prune n')) in
+                  if not (sx_match a b) then report "build" id (diff_str a b);
+                  if not (wfb n') then begin incr wffail; Printf.printf "WFFAIL build %s built network is not well-formed\n" id end
+                | None -> report "build-outcome" id "the builder model refuses a call sequence the implementation accepted")
+             | _ -> failwith "B record without N record")
           | "P" ->
             let sp = String.index_from line off ' ' in
             let enc = String.sub line off (sp - off) in
@@ -531,4 +562,5 @@ let () =
   Printf.printf "WFSKIP %d\n" !wfskip;
   Printf.printf "DOMAIN in %d out %d\n" !indom !outdom;
   Printf.printf "MODELSKIP %d\n" !modelskip;
+  Printf.printf "BUILDS %d\n" !builds;
   Printf.printf "CHECKS %d MISMATCHES %d WFFAIL %d\n" !checks !bad !wffail
